@@ -36,6 +36,7 @@ class DrainPath:
         self.ret_stmt = None
         self.ret_text = ""
         self.defs: Dict[str, str] = {}
+        self.def_lines: Dict[str, int] = {}
 
     def clone(self):
         p = DrainPath()
@@ -44,6 +45,7 @@ class DrainPath:
         p.conds = list(self.conds)
         p.ops = list(self.ops)
         p.defs = dict(self.defs)
+        p.def_lines = dict(self.def_lines)
         return p
 
 
@@ -112,6 +114,7 @@ class DrainAnalysis:
                 # alias of a self attribute or pure expression: keep resolved text
                 p.env[tg.id] = None
                 p.defs[f"{tg.id}@{p.ver[tg.id]}"] = vt
+                p.def_lines[tg.id] = s.lineno
                 return [p]
             an = attr_name(tg)
             if an is not None:
@@ -262,7 +265,7 @@ def check(model: Model, run: Run) -> None:
     # ---- (b) cut consistency in the drain function ---------------------------
     da = DrainAnalysis(model, drain)
     paths = da.run()
-    run.floor("drain paths", len(paths), 2)
+    run.floor("drain paths", len(paths), 1)
     for p in paths:
         defs = p.defs
         if p.ret is None:
@@ -310,10 +313,12 @@ def check(model: Model, run: Run) -> None:
                                  model.loc(drain.module, buf_ops[0][2] if buf_ops else p.ret_stmt)))
             # ordering: the returned slice must be evaluated before the buffer is cut
             ret_var_def_before = True
-            if isinstance(p.ret, ast.Name):
-                pass   # value bound earlier; versions make the text identical only if unchanged
-            elif buf_ops:
-                ret_var_def_before = False
+            if buf_ops:
+                cut_line = min(getattr(o[2], "lineno", 0) for o in buf_ops)
+                # the returned expression may not read the buffer attribute itself after the cut, nor a local bound after it
+                raw_mentions_buffer = any(isinstance(x, ast.Attribute) and x.attr == OBUF for x in ast.walk(p.ret))
+                late_local = any(isinstance(x, ast.Name) and p.def_lines.get(x.id, 0) > cut_line for x in ast.walk(p.ret))
+                ret_var_def_before = not raw_mentions_buffer and not late_local
             run.ob("D3-slice-taken-before-cut", ret_var_def_before, label)
             if not ret_var_def_before:
                 run.fail(Finding("D3-slice-taken-before-cut", drain.qualname, f"return {rt[:60]} after cut", "the returned slice is computed after the buffer was already cut", model.loc(drain.module, p.ret_stmt)))
